@@ -8,6 +8,8 @@
 (* A line is [ev |-> "cat", id, path, kind, chunks, full, splits]:         *)
 (*   chunks  the abstract rendering of the chunk values really built       *)
 (*   full    the outcomes [o, v] of three calls on the whole sequence      *)
+(*   sh      digests of the same calls made on ONE set of chunk values     *)
+(*           (inputs before/after every call, results then and later)      *)
 (*   splits  for every split point i: pre = outcome on chunks[1..i],       *)
 (*           res = outcome on <<value of pre>> \o chunks[i+1..]            *)
 (* The law is evaluated by TLC on these REAL outcomes; the transcription   *)
@@ -27,10 +29,12 @@ ObsReason(e) ==
       full == O(e.full[1])
       outs == {e.full[i].o : i \in 1..Len(e.full)} \cup {e.splits[i].pre.o : i \in 1..Len(e.splits)} \cup {e.splits[i].res.o : i \in 1..Len(e.splits)}
       badSplit == {i \in 1..Len(e.splits) : ~RechunkOK(full, O(e.splits[i].pre), O(e.splits[i].res))}
-  IN IF Len(e.full) # 3 \/ Len(e.splits) # Max2(n - 1, 0) \/ \E i \in 1..Len(e.splits) : e.splits[i].i # i THEN "incomplete-observation"
+  IN IF Len(e.full) # 3 \/ Len(e.splits) # Max2(n - 1, 0) \/ Len(e.sh.whole) # 3 \/ Len(e.sh.pre) # Len(e.splits) \/ Len(e.sh.res) # Len(e.splits)
+        \/ Len(e.sh.ref.pre) # Len(e.splits) \/ Len(e.sh.ref.res) # Len(e.splits) \/ \E i \in 1..Len(e.splits) : e.splits[i].i # i THEN "incomplete-observation"
      ELSE IF "panic" \in outs THEN "panic:" \o (IF HasNilValue(e.kind, e.chunks) THEN "nil-map-value" ELSE "other")
      ELSE IF outs \ {"ok", "err"} # {} THEN "malformed-outcome"
      ELSE IF \E i \in 2..Len(e.full) : O(e.full[i]) # full THEN "nondeterministic:" \o (IF HasNilValue(e.kind, e.chunks) THEN "nil-map-value" ELSE "other")
+     ELSE IF WhyImpure(e.sh) # "" THEN "impure:" \o WhyImpure(e.sh)
      ELSE IF badSplit # {} THEN
           LET i == CHOOSE i \in badSplit : TRUE
               pre == e.splits[i].pre
